@@ -99,7 +99,7 @@ func (s *Server) listenerLoop(ctx context.Context, listener net.Listener) {
 			continue
 		}
 
-		if err := s.stats.serverLimitExceeded(); err != nil {
+		if err := s.stats.incrementConnections(); err != nil {
 			dlog.Server.Error(err)
 			conn.Close()
 			continue
@@ -110,6 +110,9 @@ func (s *Server) listenerLoop(ctx context.Context, listener net.Listener) {
 
 func (s *Server) handleConnection(ctx context.Context, conn net.Conn) {
 	dlog.Server.Info("Handling connection")
+	// The connection holds its slot until it is gone, whether or not it ever
+	// authenticates or opens a session.
+	defer s.stats.decrementConnections()
 
 	sshConn, chans, reqs, err := gossh.NewServerConn(conn, s.sshServerConfig)
 	if err != nil {
@@ -117,7 +120,6 @@ func (s *Server) handleConnection(ctx context.Context, conn net.Conn) {
 		return
 	}
 
-	s.stats.incrementConnections()
 	go gossh.DiscardRequests(reqs)
 	for newChannel := range chans {
 		go s.handleChannel(ctx, sshConn, newChannel)
@@ -207,7 +209,6 @@ func (s *Server) handleRequests(ctx context.Context, sshConn gossh.Conn,
 				if err := sshConn.Wait(); err != nil && err != io.EOF {
 					dlog.Server.Error(user, err)
 				}
-				s.stats.decrementConnections()
 				dlog.Server.Info(user, "Good bye Mister!")
 				terminate()
 			}()
